@@ -267,6 +267,9 @@ EXPLANATION = (
     "stored as data and never branched on; capture errors propagated; absent streams map to null. Does not decide which "
     "thread observes the overflow first, races between child exit and the readers, or timing."
 )
+EXPLANATION += (
+    " R5 (= C02-R5 host-colocation): the captured text is allocated on the same arena as the result's handle."
+)
 ASSUMPTIONS = ["unix back end (process_common) only", "SeqCst/Acquire atomics behave as documented"]
 TRUSTED = ["rustc nightly MIR", "nsx exporter", "nsverif dominance and expression reconstruction"]
 NONTRIVIAL = "one obligation per ordering/wiring clause and per Err/Ok return site; distinct = distinct clause/site"
